@@ -14,13 +14,13 @@ CLAUSE = {1: "failed-op-had-effect", 2: "exception-class-changed", 3: "deciding-
           7: "registrations-differ-from-twin", 8: "unmodelled-values-differ-from-twin"}
 CORR = {1: "outcome", 2: "state", 3: "handler-log", 4: "fired", 5: "twin-state", 6: "registrations"}
 EXNS = ["TraitError", "ValueError", "AttributeError", "RuntimeError"]
-OPAQUE = ["SetW", "SetPW", "SetPV", "SetDPV", "DelPV"]      # operations outside the Gallina model (law only)
+OPAQUE = ["SetW", "SetPW"]      # operations outside the Gallina model (law only)
 
 
 def st_term(s):
     return C("mkSt", s["x"], (s["t"][0], s["t"][1]), list(s["l"]), [(k, v) for k, v in s["d"]], list(s["s"]),
              opt(s["f"]), opt(s["m"]), s["p"], opt(s["c"]), s["ad"], opt(s["y"]), s["ad2"],
-             Nat(s["oreg"]), list(s["zz"]), s["ade"])
+             Nat(s["oreg"]), list(s["zz"]), s["ade"], opt(s["pv"]), s["dpv"])
 
 
 def obs_term(o):
@@ -47,8 +47,10 @@ def _in_call_order(raw, echo):
 
 def op_term(op, echo, before):
     k = op[0]
-    if k in ("SetX", "LAppend", "SAdd", "SetP", "SetY", "SetXQ"):
+    if k in ("SetX", "LAppend", "SAdd", "SetP", "SetY", "SetXQ", "SetPV", "SetDPV"):
         return C(k, op[1])
+    if k == "DelPV":
+        return C(k)
     if k in OPAQUE:
         return C("Opaque", Nat(OPAQUE.index(k)))
     if k in ("ObsAdd", "ObsRemove", "AddZ"):
